@@ -14,7 +14,7 @@ pub fn props() -> Vec<Prop> {
             id: "C01",
             run: c01,
             tools: None,
-            rule: "lock-step oracle: every call is run on the real Memfs and on a reference tree written from the trait docs; result (value or documented error kind) and the complete post state (hook snapshot: names, kinds, bytes, link targets, modes, owners, cwd) must equal one of the outcomes the reference allows (one where documented, two at the listed either-points), a failed call must leave the snapshot unchanged. Workloads: (a) breadth-first sweep over reference states of a bounded namespace (names {a,b}, depth 2; thorough {a,b,c}) from the fresh filesystem, every call of a finite alphabet (every mutator/query x every path x spellings; move_p/copy/symlink over all ordered pairs) from every reached state, to the fixpoint or the state cap; (b) seeded random histories of 200-1500 calls over names {a,b,c}, depth 3 with hostile data. distinct_nontrivial = distinct (operation, argument classes, outcome class) triples.",
+            rule: "lock-step oracle: every call is run on the real Memfs and on a reference tree written from the trait docs; result (value or documented error kind) and the complete post state (hook snapshot: names, kinds, bytes, link targets, modes, owners, cwd) must equal one of the outcomes the reference allows (one where documented, two at the listed either-points), a failed call must leave the snapshot unchanged. Workloads: (a) breadth-first sweep over reference states of a bounded namespace (names {a,b}, depth 2; thorough {a,b,c}) from the fresh filesystem, every call of a finite alphabet (every mutator/query x every path x spellings; move_p/copy/symlink over all ordered pairs) from every reached state, to the fixpoint or the state cap; (b) seeded random histories of 200-1500 calls over names {a,b,c}, depth 3 with hostile data. distinct_nontrivial = distinct (operation, argument classes, outcome class) triples. Later addition: when the reference says Unspecified the adopted real state must still carry, for every entry, the type bits of its kind.",
             assumptions: &[
                 "reference semantics = trait documentation + pinned unit tests; either-points (docs silent) accept Ok or Err and are counted in the evidence",
                 "no intermediate symlink resolution in the reference (the trait promises lexical resolution only)",
